@@ -120,8 +120,8 @@ func (i IntSchema) ValidateCompatibility(typeOrData any) error {
 		// or the max of the tested type is less than the min of the self type
 		// For more control over this, the ValidateCompatibility API would need to change to allow subset,
 		// superset, and exact verification levels.
-		if (i.MinValue != nil && intSchemaType.MaxValue != nil && (*intSchemaType.MinValue) > (*i.MaxValue)) ||
-			(i.MaxValue != nil && intSchemaType.MinValue != nil && (*intSchemaType.MaxValue) < (*i.MinValue)) {
+		if (i.MaxValue != nil && intSchemaType.MinValue != nil && (*intSchemaType.MinValue) > (*i.MaxValue)) ||
+			(i.MinValue != nil && intSchemaType.MaxValue != nil && (*intSchemaType.MaxValue) < (*i.MinValue)) {
 			return &ConstraintError{
 				Message: "mutually exclusive min/max values between int schemas",
 			}
